@@ -222,7 +222,7 @@ func (vc *VC) frameObligations(c *Contract, args []Val, out *State) {
 		if cur == base {
 			continue
 		}
-		if strings.HasPrefix(name, "Z!plain!") || name == "Z!rvSliceLen" || name == "Z!zoneOff" {
+		if strings.HasPrefix(name, "Z!plain!") || name == "Z!rvSliceLen" || name == "Z!zoneOff" || name == "Z!iterpos" {
 			continue // ghost attributes of objects created by the call itself (keys are fresh by construction)
 		}
 		if !vc.dirty[name] {
